@@ -163,6 +163,18 @@ def _parser(ctx):
     return fs[0]
 
 
+def _same_storage(p, v):
+    """v, and the same component of every variable whose whole value was moved into v's
+    variable (`let finished = mem::replace(&mut draft, ..)`: finished.0 is draft.0)."""
+    out = {v}
+    if v and v[0][0] == "var":
+        fam = p.var_family({"k": "copy", "place": {"local": v[0][1], "proj": []}})
+        for o in fam:
+            if o[0][0] == "var" and len(o) == 1:
+                out.add(o + tuple(v[1:]))
+    return out
+
+
 def parser_table(ctx, p):
     """Read the state machine back as a table: mode x {empty, colon, other} -> effects."""
     if getattr(ctx, "_ptable", None) is not None:
@@ -201,9 +213,11 @@ def parser_table(ctx, p):
                     if is_call(o2, "bundle::PathBundle::parse_lines"):
                         pl = p.call_at[o2[0][2]]
                         for v in p.vars_of_operand(pl.args[0]):
-                            roles[v] = nm
+                            for v2 in _same_storage(p, v):
+                                roles[v2] = nm
     for v in p.vars_of_operand(rn.args[2]):
-        roles[v] = "command"
+        for v2 in _same_storage(p, v):
+            roles[v2] = "command"
     latch = [bb for bb in lp["body"] if lp["header"] in p.succ[bb] and bb != lp["header"]]
     pushes = []
 
